@@ -261,6 +261,7 @@ type c10BudgetIn struct {
 	annoKind             int // 0 none, 1 resources.cpu, 2 resources.cpu + reservedCPUs, 3 malformed json, 4 resources.cpu + unparsable reservedCPUs, 5 resources without cpu
 	annoMilli            int64 // resources.cpu of the annotation
 	annoCpus             int64 // number of cpus in reservedCPUs
+	annoPolicy           int   // applyPolicy of the annotation: 0 absent, 1 "", 2 Default, 3 ReservedCPUsOnly, 4 an unknown value
 	thr                  int64
 	hasMin               bool
 	minPct               int64
@@ -294,6 +295,10 @@ func c10GenBudget(r *vRand, j int) c10BudgetIn {
 	case 4:
 		in.annoKind = 5
 	}
+	// applyPolicy of the reservation annotation: taken from the case number, not from r, so that every policy meets
+	// every annotation kind / reservation size (the koordlet budget honours the reserved amount under EVERY policy:
+	// ReservedCPUsOnly only tells the scheduler not to trim the node allocatable)
+	in.annoPolicy = ((j % c10AnnoPolicies) + c10AnnoPolicies) % c10AnnoPolicies
 	in.thr = 65
 	if r.Chance(1, 2) {
 		in.thr = int64(r.Range(0, 100))
@@ -364,26 +369,48 @@ func c10BuildBudget(h *vHarness, in c10BudgetIn) *c10BudgetObjs {
 		Capacity:    corev1.ResourceList{corev1.ResourceCPU: *resource.NewMilliQuantity(in.capMilli, resource.DecimalSI), corev1.ResourceMemory: resource.MustParse("64Gi")},
 		Allocatable: corev1.ResourceList{corev1.ResourceCPU: *resource.NewMilliQuantity(in.allocMilli, resource.DecimalSI), corev1.ResourceMemory: resource.MustParse("60Gi")},
 	}}
+	pol := c10AnnoPolicyJSON[in.annoPolicy]
+	annoStr := ""
 	switch in.annoKind {
 	case 1:
-		node.Annotations = map[string]string{apiext.AnnotationNodeReservation: fmt.Sprintf(`{"resources":{"cpu":"%dm","memory":"1Gi"}}`, in.annoMilli)}
+		annoStr = fmt.Sprintf(`{"resources":{"cpu":"%dm","memory":"1Gi"}%s}`, in.annoMilli, pol)
 	case 2:
-		node.Annotations = map[string]string{apiext.AnnotationNodeReservation: fmt.Sprintf(`{"resources":{"cpu":"%dm"},"reservedCPUs":"0-%d"}`, in.annoMilli, in.annoCpus-1)}
+		annoStr = fmt.Sprintf(`{"resources":{"cpu":"%dm"},"reservedCPUs":"0-%d"%s}`, in.annoMilli, in.annoCpus-1, pol)
+		if in.annoPolicy != 0 && in.annoCpus%2 == 0 { // key order must not matter
+			annoStr = fmt.Sprintf(`{%s,"reservedCPUs":"0-%d","resources":{"cpu":"%dm"}}`, pol[1:], in.annoCpus-1, in.annoMilli)
+		}
 	case 4:
-		node.Annotations = map[string]string{apiext.AnnotationNodeReservation: fmt.Sprintf(`{"resources":{"cpu":"%dm"},"reservedCPUs":"0-x"}`, in.annoMilli)}
+		annoStr = fmt.Sprintf(`{"resources":{"cpu":"%dm"},"reservedCPUs":"0-x"%s}`, in.annoMilli, pol)
 	case 5:
-		node.Annotations = map[string]string{apiext.AnnotationNodeReservation: `{"resources":{"memory":"2Gi"}}`}
+		annoStr = fmt.Sprintf(`{"resources":{"memory":"2Gi"}%s}`, pol)
 	case 3:
-		node.Annotations = map[string]string{apiext.AnnotationNodeReservation: `{"resources":`}
+		annoStr = `{"resources":`
+		if in.annoPolicy != 0 {
+			annoStr = fmt.Sprintf(`{%s,"resources":`, pol[1:])
+		}
+	}
+	if in.annoKind != 0 {
+		node.Annotations = map[string]string{apiext.AnnotationNodeReservation: annoStr}
 	}
 	// what the annotation reserves, by the API's documentation: resources.cpu, overridden by the size of reservedCPUs;
-	// nothing when the annotation is absent, malformed, carries an unparsable cpuset or no cpu amount
-	annoEff := int64(0)
-	switch in.annoKind {
-	case 1:
-		annoEff = in.annoMilli
-	case 2:
-		annoEff = in.annoCpus * 1000
+	// nothing when the annotation is absent, malformed, carries an unparsable cpuset or no cpu amount -- whatever its
+	// applyPolicy says.  The ORACLE's amount is read from the annotation STRING by the harness's own parsing
+	// (c10OwnReservedMilli); the generator's intent is only cross-checked against it.
+	annoEff := c10OwnReservedMilli(node.Annotations)
+	{
+		meant := int64(0)
+		switch in.annoKind {
+		case 1:
+			meant = in.annoMilli
+		case 2:
+			meant = in.annoCpus * 1000
+		}
+		if meant != annoEff {
+			panic(fmt.Sprintf("C10 harness: reservation annotation %q read as %dm, generator meant %dm", annoStr, annoEff, meant))
+		}
+	}
+	if in.annoKind != 0 {
+		h.Tag(fmt.Sprintf("budget:anno-policy-%d", in.annoPolicy))
 	}
 	h.Tag(fmt.Sprintf("budget:anno-kind-%d", in.annoKind))
 	podMetrics := map[string]float64{}
@@ -455,7 +482,7 @@ func c10BuildBudget(h *vHarness, in c10BudgetIn) *c10BudgetObjs {
 		minP = &m
 	}
 	return &c10BudgetObjs{node: node, metas: metas, podMetrics: podMetrics, apps: apps, appMetrics: appMetrics, minP: minP, annoEff: annoEff,
-		opTokens: strings.Join(strings.Fields(fmt.Sprintf("%d %d %d %d %d %d %d %d %d %d %s %d %s", in.capMilli, in.allocMilli, in.annoKind, in.annoMilli, in.annoCpus, in.thr,
+		opTokens: strings.Join(strings.Fields(fmt.Sprintf("%d %d %d %d %d %d %d %d %d %d %d %s %d %s", in.capMilli, in.allocMilli, in.annoKind, in.annoMilli, in.annoCpus, in.annoPolicy, in.thr,
 			vB(in.hasMin), in.minPct, c10Milli8(in.node8), np, vInts(podTok), na, vInts(appTok))), " ")}
 }
 
@@ -480,6 +507,7 @@ func c10RunBudget(h *vHarness, in c10BudgetIn) (int64, bool) {
 		h.Fail("C10:budget-formula", "budget %d, statement gives %d (cap %d thr %d nonBE pods %d apps %d system %d)",
 			got, floor(want), in.capMilli, in.thr, podsNonBE, appsNonBE, sys)
 	}
+	c10TagAnnoBinds(h, in, o.annoEff, resBinding, "budget")
 	if resBinding {
 		h.Tag("budget:reservation-binds")
 	} else {
@@ -489,6 +517,14 @@ func c10RunBudget(h *vHarness, in c10BudgetIn) (int64, bool) {
 		h.Tag("budget:floored")
 	}
 	return got, true
+}
+
+// c10TagAnnoBinds: histogram of the inputs on which the ANNOTATION's amount is the binding system term (above the kubelet
+// reservation and the measured system usage), per applyPolicy -- the only inputs on which the policy could matter.
+func c10TagAnnoBinds(h *vHarness, in c10BudgetIn, annoEff int64, resBinding bool, prefix string) {
+	if resBinding && annoEff > in.capMilli-in.allocMilli && annoEff > 0 {
+		h.Tag(fmt.Sprintf("%s:anno-reservation-binds-policy-%d", prefix, in.annoPolicy))
+	}
 }
 
 func c10BudgetFloor(in c10BudgetIn, x int64) int64 {
@@ -573,7 +609,7 @@ func TestVerifC10(t *testing.T) {
 		}
 		h.End()
 	}
-	h.Close("case kind by idx%4: budget (node 2-64 CPUs, reservations by kubelet/annotation/reservedCPUs/malformed, 0-6 pods with QoS label x kube QoS x " +
+	h.Close("case kind by idx%4: budget (node 2-64 CPUs, reservations by kubelet/annotation/reservedCPUs/malformed x applyPolicy {absent, empty, Default, ReservedCPUsOnly, unknown} cycling with the case number, 0-6 pods with QoS label x kube QoS x " +
 		"metric/meta presence, 0-3 host apps over 6 QoS values x {nil path, KubepodsBesteffort, Kubepods, empty base, CgroupRoot, KubepodsBurstable} plus a " +
 		"systematic stream enumerating all 36 (QoS, path) combinations, dyadic usages; re-run with one non-BE consumption bumped) | policy (generated topologies 1-64 CPUs: " +
 		"sockets x numa x cores x 1-4 threads, two cpu-id layouts, restarting core ids, offline cpus, shuffled lists, colliding numa ids; k in [-1,n+2]) | " +
@@ -1173,6 +1209,53 @@ func c10ParseFile(raw string) (c10Set, error) {
 	return c10Set(cpus), nil
 }
 
+// c10AnnoPolicies: the applyPolicy spellings of a node-reservation annotation (index = c10BudgetIn.annoPolicy), as the
+// JSON fragment appended to the object: absent, empty, Default, ReservedCPUsOnly, a value the API does not know.
+const c10AnnoPolicies = 5
+
+var c10AnnoPolicyJSON = [c10AnnoPolicies]string{"", `,"applyPolicy":""`, `,"applyPolicy":"Default"`, `,"applyPolicy":"ReservedCPUsOnly"`, `,"applyPolicy":"Whatever"`}
+
+// c10OwnReservedMilli: the CPU amount (milli) the NODE's reservation annotation reserves, read by the oracle itself
+// (encoding/json into its own struct, own quantity and cpu-list grammar; neither apiext.NodeReservation nor
+// util.GetNodeReservationFromAnnotation): the size of a well-formed non-empty reservedCPUs, else resources.cpu; nothing
+// when the JSON or the cpu list cannot be read.  applyPolicy is deliberately NOT looked at: the statement's system term
+// is "at least the node reservation", and ReservedCPUsOnly reserves the very same cores (it only keeps the scheduler
+// from trimming the allocatable).
+func c10OwnReservedMilli(anno map[string]string) int64 {
+	s, ok := anno[apiext.AnnotationNodeReservation]
+	if !ok || s == "" {
+		return 0
+	}
+	var v struct {
+		Resources    map[string]string `json:"resources"`
+		ReservedCPUs string            `json:"reservedCPUs"`
+	}
+	if json.Unmarshal([]byte(s), &v) != nil {
+		return 0
+	}
+	cpus, ok := c10ParseCPUList(v.ReservedCPUs)
+	if !ok {
+		return 0
+	}
+	if len(cpus) > 0 {
+		return int64(len(cpus)) * 1000
+	}
+	q, ok := v.Resources["cpu"]
+	if !ok {
+		return 0
+	}
+	// the generated quantities are plain decimal cores ("2") or milli-cores ("1500m")
+	mul := int64(1000)
+	if strings.HasSuffix(q, "m") {
+		q, mul = strings.TrimSuffix(q, "m"), 1
+	}
+	n, err := strconv.ParseInt(q, 10, 64)
+	if err != nil || n < 0 {
+		panic(fmt.Sprintf("C10 harness: quantity %q outside the generated grammar", v.Resources["cpu"]))
+	}
+	return n * mul
+}
+
 // c10OwnProtected: the CPUs the NodeResourceTopology annotations protect, by the statement: the union of every
 // WELL-FORMED source.  A source that cannot be read (JSON or cpu list) protects nothing and says nothing about the other.
 func c10OwnProtected(anno map[string]string) (reserved, sysExcl []int) {
@@ -1290,6 +1373,14 @@ func c10ApplyAnnoCell(h *vHarness, r *vRand, in *c10CSIn, cell int) {
 		default:
 			in.resKind = 4
 			in.topoAnno[apiext.AnnotationNodeReservation] = `{"reservedCPUs":`
+		}
+		// applyPolicy of the reservation (absent / "" / Default / ReservedCPUsOnly / unknown), cycling with the rounds through
+		// the cells: reservedCPUs are kept away from BE under every policy (ReservedCPUsOnly says so in so many words), and an
+		// unreadable cpu list stays unreadable
+		if pol := c10AnnoPolicyJSON[(cell/c10AnnoCells)%c10AnnoPolicies]; pol != "" && resShape != 3 {
+			a := in.topoAnno[apiext.AnnotationNodeReservation]
+			in.topoAnno[apiext.AnnotationNodeReservation] = a[:len(a)-1] + pol + "}"
+			h.Tag(fmt.Sprintf("anno-cell:res%d-policy-%d", resShape, (cell/c10AnnoCells)%c10AnnoPolicies))
 		}
 	}
 	if sysShape != 0 {
